@@ -75,8 +75,9 @@ _U_EXPL = (
 )
 
 
-def _mixed(expl, monitor, domains="UHS", chain_props=(), extra_trusted=()):
+def _mixed(expl, monitor, domains="UHS", chain_props=(), extra_trusted=(), extra_monitors=()):
     return {
+        "extra_monitors": list(extra_monitors),
         "level": "other",
         "level_text": _MIXED_TEXT,
         "level_note": _MIXED_NOTE,
@@ -106,6 +107,7 @@ PLAN = {
         "domains": "U",
         "technique": _VC + " (domain U, unbounded); counter-models are replayed natively on table-driven TermLists, which also serve as an additional bounded monitor",
         "monitor": "m_model",
+        "extra_monitors": [("m_misc", "C16")],
         "explanation": _U_EXPL + "List order is abstracted (the property speaks about sets and duplicate-freeness). Hypothesis on the term class: Term.vars is duplicate-free (proved for PolyhedralTerm by the C04 obligation PolyhedralTerm.accessors::vars.duplicate_free, domain S).",
         "trusted": ["Term.vars returns a duplicate-free list (proved for PolyhedralTerm in domain S by PolyhedralTerm.accessors; an assumption of this unbounded proof)"],
     },
@@ -173,8 +175,9 @@ PLAN = {
     ),
     "C14": _mixed(
         "Exceptional postconditions of every function under contract: every raise / assert / subscript / division / None-arithmetic reachable on a path yields an outcome whose class must be documented (ValueError from the algebra layer only as propagated from a primitive). "
-        "Dictionary faults: EXHAUSTIVE enumeration (finite) of single-field deletions and type changes in both representations through from_dict, validate+from_strings and the file reader; adversarial shapes by the monitor.",
+        "Dictionary faults: EXHAUSTIVE enumeration (finite) of single-field deletions and type changes in both representations through from_dict, validate+from_strings and the file reader; adversarial shapes by the monitor; the error paths of compose / quotient / merge / rename on the polyhedral instance through the algebra monitors (their C14 violations).",
         "m_io",
+        extra_monitors=[("m_algebra", "C01"), ("m_algebra", "C02"), ("m_algebra", "C08"), ("m_misc", "C16")],
     ),
     "C15": _mixed(
         "merge: proved at the algebra layer (no operand guarantee is forgotten). compose: bounded monitor only (the obligation needs the polyhedral keep-property of relaxation; it is refuted on this tree: a guarantee present in both operands is dropped because each side is simplified against the other - known finding).",
